@@ -185,8 +185,9 @@ def dstep (v : Variant) (st : DState) (toks : List String) : DState × List Stri
         match obs.find? (fun o => o.id == i) with
         | some o =>
           [obsLine s.scr.bpp o] ++ (if o.res && st.fullreq.contains i then [s!"oracle c{i} ok"] else [])
+            ++ (if o.res then [s!"inv c{i} ok"] else [])
         | none =>
-          if alive s' i then [s!"c{i} n=0"] ++ (if st.fullreq.contains i then [s!"oracle c{i} ok"] else [])
+          if alive s' i then [s!"c{i} n=0"] ++ (if st.fullreq.contains i then [s!"oracle c{i} ok"] else []) ++ [s!"inv c{i} ok"]
           else [s!"c{i} dead"]
       let fr := st.fullreq.filter fun i => !(obs.any (fun o => o.id == i))
       ({ st with sess := some s', fullreq := fr }, lines)
